@@ -1633,6 +1633,10 @@ def Mandatory(cls, **_kwargs):
     elif issubclass(cls, Array):
         (k,v), = cls._type_info.items()
         if v.Attributes.min_occurs == 0:
-            cls._type_info[k] = Mandatory(v)
+            # the member is made mandatory in the new class only, the array
+            # passed in must stay as it is.
+            retval = cls.customize(**kwargs)
+            retval._type_info[k] = Mandatory(v)
+            return retval
 
     return cls.customize(**kwargs)
